@@ -169,3 +169,15 @@ func c20LeanStrList(l []string) string {
 	}
 	return s + "]"
 }
+
+// c20StmtIdents: all identifier names occurring in a statement, space separated
+func c20StmtIdents(s ast.Stmt) string {
+	out := ""
+	ast.Inspect(s, func(n ast.Node) bool {
+		if id, ok := n.(*ast.Ident); ok {
+			out += id.Name + " "
+		}
+		return true
+	})
+	return out
+}
